@@ -248,6 +248,11 @@ func (d *Descriptor) readAsMapEntry(out Outputter, data []byte) (n int, err erro
 		return
 	}
 
+	// A zero key and a zero or nil value are not written, but the JSON object
+	// needs a name and a value for every entry
+	key, val := &d.Elements[0], &d.Elements[1]
+	var seenKey, seenVal bool
+
 	l := len(data)
 
 	var offset int
@@ -292,11 +297,32 @@ func (d *Descriptor) readAsMapEntry(out Outputter, data []byte) (n int, err erro
 			fl = int(v) + offset
 		}
 
+		if elt == key {
+			seenKey = true
+		} else {
+			if !seenKey {
+				out.String("")
+				seenKey = true
+			}
+			seenVal = true
+		}
+
 		n, err := elt.read(out, data[offset:fl])
 		if err != nil {
 			return 0, fmt.Errorf("failed reading field %d(%s) of %s. %w", index, elt.Name, d.Name, err)
 		}
 		offset += n
+	}
+
+	if !seenKey {
+		out.String("")
+	}
+	if !seenVal {
+		if val.ExplicitPresence {
+			out.Raw("null")
+		} else if _, err := val.read(out, nil); err != nil {
+			return 0, err
+		}
 	}
 
 	return offset, nil
